@@ -21,7 +21,9 @@ RULE = ("trees: the property's shape families (pure chain, text inside, trailing
         "nesting templates (random siblings before/after the hole, random names/attributes/comments), each at depth d and "
         "2d (d=80 quick, 200 thorough) and at 1500 (quick) / 3000 and 6000 (thorough); seeded random small documents "
         "(<=40 elements) and hand-built trees of directly constructed Tag objects (unknown XML-ness, prefixes, empty "
-        "strings). operations: parse, decode/encode/prettify/decode_contents/str under minimal, html, None and object "
+        "strings); the families are also parsed under three other builder configurations (tag names in both "
+        "preserve_whitespace_tags and string_containers, custom container classes in disjoint sets, empty option sets "
+        "with multi_valued_attributes=None) and pickled / copied / rendered / searched at d, 2d and 1500 (oracle). operations: parse, decode/encode/prettify/decode_contents/str under minimal, html, None and object "
         "formatters, copy, deepcopy, pickle dumps/loads, get_text/stripped_strings/.string, find_all/find on 20 criteria "
         "(fast paths, names, lists, attributes, string, name+string, functions, patterns, limit, recursive=False), the five "
         "other search axes, the CSS entry points (select/select_one/css.iselect/compile/closest/match/filter; growth oracle only), the iterators, and extract/decompose/insert/append/extend/insert_before/insert_after/"
@@ -719,24 +721,57 @@ LIGHT_EDITS = ("extract(mid)", "inner.append(tag);smooth", "mid.insert(0,tag,str
                "mid.unwrap", "mid.string=", "soup.insert(0,..);pickle")
 
 
-def oracle_family(ctx, desc, mk, d, profile=True, light=False):
-    """depths of every operation on the family member of depth d: {op: (all-frames depth, bs4 depth)} or errors"""
+class _ContainerA(NavigableString):
+    """a user's string container class"""
+
+
+class _ContainerB(NavigableString):
+    """another one"""
+
+
+# builder configurations under which the families are parsed besides the default one.  The names are the
+# tag names the families and templates nest: the same name may be whitespace-preserving *and* a string
+# container, only one of the two, or neither; the option sets may be empty; attributes may stay unsplit.
+CONFIGS = {
+    "names-in-both-option-sets": dict(preserve_whitespace_tags={"pre", "a", "div", "span"},
+                                      string_containers={"pre": _ContainerA, "a": _ContainerB, "div": _ContainerA,
+                                                         "b": _ContainerB, "p": _ContainerA}),
+    "custom-containers-disjoint": dict(preserve_whitespace_tags={"pre", "p"},
+                                       string_containers={"a": _ContainerA, "span": _ContainerB, "div": Comment}),
+    "empty-option-sets": dict(preserve_whitespace_tags=set(), string_containers={}, multi_valued_attributes=None),
+}
+# the operations run under each configuration (names as in oracle_ops): pickling, copying, rendering, text, searching
+CONFIG_OPS = ("pickle@doc", "pickle(copy)@doc", "copy@doc", "deepcopy@doc", "copy@mid", "deepcopy@inner", "decode@doc",
+              "decode@mid", "prettify@doc", "prettify@inner", "encode@doc", "get_text@doc", "find_all('a')@doc",
+              "find_all('a',string=)@doc", "find_all(id=)@mid", "smooth@doc", "select('a')@mid")
+
+
+def oracle_family(ctx, desc, mk, d, profile=True, light=False, config=None):
+    """depths of every operation on the family member of depth d: {op: (all-frames depth, bs4 depth)} or errors.
+    config: name in CONFIGS — parse with those builder options and run the CONFIG_OPS only"""
     out = {}
+    kw = CONFIGS[config] if config else {}
+    _mk = mk
+    mk = lambda k: _mk(k)
+    BS = (lambda markup, features: BeautifulSoup(markup, features, **kw))
+    case0 = {"tree": desc} if not config else {"tree": desc, "config": config}
     if profile:
-        m = measure(lambda: BeautifulSoup(mk(d), "html.parser"))
+        m = measure(lambda: BS(mk(d), "html.parser"))
         if m.error:
-            ctx.fail({"tree": desc, "depth": d, "operation": "parse"}, "parsing raised %s" % m.error, m.error, "no exception", tag="raises")
+            ctx.fail(dict(case0, depth=d, operation="parse"), "parsing raised %s" % m.error, m.error, "no exception", tag="raises")
             return out
         out["parse"] = (m.ma, m.mb)
         soup = m.result
     else:
-        err, soup = plain(lambda: BeautifulSoup(mk(d), "html.parser"))
+        err, soup = plain(lambda: BS(mk(d), "html.parser"))
         if err:
-            ctx.fail({"tree": desc, "depth": d, "operation": "parse"}, "parsing raised %s" % err, err, "no exception", tag="raises")
+            ctx.fail(dict(case0, depth=d, operation="parse"), "parsing raised %s" % err, err, "no exception", tag="raises")
             return out
     inner, mid = nest_targets(soup)
     for name, f in oracle_ops(soup, inner, mid).items():
-        ctx.case((desc, d, name))
+        if config and name not in CONFIG_OPS:
+            continue
+        ctx.case((desc, config, d, name))
         if profile:
             m = measure(f)
             err = m.error
@@ -744,12 +779,12 @@ def oracle_family(ctx, desc, mk, d, profile=True, light=False):
         else:
             err, _ = plain(f)
         if err:
-            ctx.fail({"tree": desc, "depth": d, "operation": name}, "operation raised %s" % err, err, "no exception", tag="raises")
+            ctx.fail(dict(case0, depth=d, operation=name), "operation raised %s" % err, err, "no exception", tag="raises")
             out.pop(name, None)
     for name, f in ORACLE_EDITS.items():
-        if light and name not in LIGHT_EDITS:
+        if config or (light and name not in LIGHT_EDITS):
             continue
-        e0, s2 = plain(lambda: BeautifulSoup(mk(d), "html.parser"))
+        e0, s2 = plain(lambda: BS(mk(d), "html.parser"))
         if e0:
             continue
         i2, m2 = nest_targets(s2)
@@ -764,26 +799,26 @@ def oracle_family(ctx, desc, mk, d, profile=True, light=False):
             out.pop(name, None)
             continue
         if err:
-            ctx.fail({"tree": desc, "depth": d, "operation": name}, "operation raised %s" % err, err, "no exception", tag="raises")
+            ctx.fail(dict(case0, depth=d, operation=name), "operation raised %s" % err, err, "no exception", tag="raises")
             out.pop(name, None)
             continue
         # the edited tree must still render (its links are walked by decode)
         e3, _ = plain(lambda: s2.decode())
         if e3:
-            ctx.fail({"tree": desc, "depth": d, "operation": name + " then decode"}, "operation raised %s" % e3, e3, "no exception", tag="raises")
+            ctx.fail(dict(case0, depth=d, operation=name + " then decode"), "operation raised %s" % e3, e3, "no exception", tag="raises")
     return out
 
 
-def oracle_growth(ctx, desc, mk, d):
+def oracle_growth(ctx, desc, mk, d, config=None):
     # warm the interpreter's caches (re, typing protocol checks, lazy imports) on a tiny member first
     n0 = ctx.evaluations
-    oracle_family(ctx, desc, mk, 2, profile=False)
+    oracle_family(ctx, desc, mk, 2, profile=False, config=config)
     ctx.evaluations = n0
-    a = oracle_family(ctx, desc, mk, d)
-    b = oracle_family(ctx, desc, mk, 2 * d)
+    a = oracle_family(ctx, desc, mk, d, config=config)
+    b = oracle_family(ctx, desc, mk, 2 * d, config=config)
     for name in a:
         if name in b and (b[name][0] > a[name][0] or b[name][1] > a[name][1]):
-            ctx.fail({"tree": desc, "depths": [d, 2 * d], "operation": name},
+            ctx.fail(dict({"tree": desc, "depths": [d, 2 * d], "operation": name}, **({"config": config} if config else {})),
                      "call depth grows with the nesting depth",
                      {"depth_at_d(all frames, bs4 frames)": a[name], "depth_at_2d": b[name]},
                      "the same call depth at both nesting depths", tag="depth-grows")
@@ -919,6 +954,12 @@ def search(ctx):
             break
         oracle_growth(ctx, name, mk, 150)
         done += 1
+    for cname in CONFIGS:                      # the other builder configurations, further out
+        for name, mk in fams[:len(FAMILIES)]:
+            if left() < 0 or ctx.failures:
+                break
+            oracle_growth(ctx, name, mk, 150, config=cname)
+            done += 1
     for name, mk in fams[:len(FAMILIES)]:      # twice as far beyond the recursion limit as the quick tier
         if left() < 0 or ctx.failures:
             break
@@ -955,6 +996,16 @@ def run(ctx):
         else:
             for name, mk in fams[:len(FAMILIES)]:
                 oracle_family(ctx, name, mk, 1500, profile=False, light=True)
+        # 2b. the same two oracles under other builder configurations (option sets that overlap, are disjoint, are empty;
+        #     custom string container classes; unsplit attributes): families x pickling / copying / rendering / searching
+        cfg_fams = fams if ctx.thorough else [x for x in fams[:len(FAMILIES)]
+                                              if x[0] not in ("text_inside", "leading_text", "alternating")]
+        for cname in CONFIGS:
+            for name, mk in cfg_fams:
+                oracle_growth(ctx, name, mk, d if ctx.thorough else 50, config=cname)
+            for name, mk in cfg_fams:
+                if ctx.thorough or name in ("chain", "trailing_text", "pre_nesting", "pre_chain"):
+                    oracle_family(ctx, name, mk, 3000 if ctx.thorough else 1500, profile=False, config=cname)
         # 3. correspondence with the model
         #    a. families at small and larger depth (every operation, targets: document, middle, innermost, a string)
         for name, mk in fams:
@@ -1019,9 +1070,9 @@ def replay(ctx, data):
             name = case["tree"]
             mk = lambda k: family_markup(name, k)
             if "depths" in case:
-                oracle_growth(ctx, name, mk, case["depths"][0])
+                oracle_growth(ctx, name, mk, case["depths"][0], config=case.get("config"))
             else:
-                oracle_family(ctx, name, mk, case.get("depth", 3000), profile=False)
+                oracle_family(ctx, name, mk, case.get("depth", 3000), profile=False, config=case.get("config"))
         elif str(case.get("tree", "")).startswith("template"):
             t = eval(case["tree"][len("template"):])
             mk = lambda k: template_markup(t, k)
